@@ -1666,7 +1666,7 @@ class GenerativeFunctionClosure(Generic[R], GenerativeFunction[R]):
                 (full_args, Diff.unknown_change(self.kwargs)),
             )
         else:
-            return self.gen_fn.edit(key, trace, edit_request, argdiffs)
+            return self.gen_fn.edit(key, trace, edit_request, full_args)
 
     def assess(
         self,
